@@ -4,6 +4,7 @@
   and so that examples can discharge them by evaluation.
 -/
 import CM.Proofs.Correct
+import CM.Proofs.Decode
 namespace CM
 
 /-- `GraphOK`, decided node by node -/
@@ -46,5 +47,59 @@ theorem callOKB_sound (g : Graph) (env : String → Option Val) (h : g.callOKB e
     exact (h.1 j (by simpa using hj)).1
   · intro j hj
     exact (h.1 j (by simpa using hj)).2
+
+
+/-! ### `Plain`, decided -/
+
+def Graph.plainB (g : Graph) (d : DenCfg) : Bool :=
+  (List.range g.nodes.length).all fun n =>
+    (g.node n).parents.all (· < n) &&
+    (!g.usedInputs.contains n || (g.node n).edge.isNone) &&
+    (match (g.node n).edge with
+     | none => true
+     | some e => e.plain && (!e.passThrough || decide (1 ≤ (g.node n).parents.length)) &&
+        (match e with
+         | .function f _ _ => (d.constFns.find? (·.1 == f)).isNone && !d.impureFns.contains f
+         | _ => true))
+
+theorem call_pure (d : DenCfg) (n : Nat) (f : String) (pos : List Val) (kwn : List String) (kwv : List Val)
+    (h1 : (d.constFns.find? (·.1 == f)).isNone = true) (h2 : d.impureFns.contains f = false) :
+    d.call n f pos kwn kwv = .app f pos kwn kwv := by
+  unfold DenCfg.call
+  cases hf : d.constFns.find? (·.1 == f) with
+  | some p => simp [hf] at h1
+  | none =>
+    have h2' : ¬ f ∈ d.impureFns := by simpa using h2
+    simp [h2']
+
+theorem plainB_sound (g : Graph) (d : DenCfg) (h : g.plainB d = true) : Plain g d := by
+  simp only [Graph.plainB, List.all_eq_true, List.mem_range, Bool.and_eq_true] at h
+  have lt : ∀ n nd, g.nodes[n]? = some nd → n < g.nodes.length := by
+    intro n nd hn
+    exact (List.getElem?_eq_some_iff.mp hn).1
+  refine { topo := ?_, inputsLeaves := ?_, plain := ?_, arity := ?_, pure := ?_ }
+  · intro n nd hn p hp
+    have := (h n (lt n nd hn)).1.1
+    rw [node_eq_of_getElem? g n nd hn] at this
+    simpa using this p hp
+  · intro n nd hn hu
+    have := (h n (lt n nd hn)).1.2
+    rw [node_eq_of_getElem? g n nd hn, hu] at this
+    simpa using this
+  · intro n nd e hn he
+    have := (h n (lt n nd hn)).2
+    rw [node_eq_of_getElem? g n nd hn, he] at this
+    simp only [Bool.and_eq_true] at this
+    exact this.1.1
+  · intro n nd e hn he hpt
+    have := (h n (lt n nd hn)).2
+    rw [node_eq_of_getElem? g n nd hn, he] at this
+    simp only [Bool.and_eq_true, hpt, Bool.not_true, Bool.false_or, decide_eq_true_eq] at this
+    exact this.1.2
+  · intro n nd f kwn sil hn he pos kwv
+    have := (h n (lt n nd hn)).2
+    rw [node_eq_of_getElem? g n nd hn, he] at this
+    simp only [Bool.and_eq_true, Bool.not_eq_true'] at this
+    exact call_pure d n f pos kwn kwv this.2.1 this.2.2
 
 end CM
